@@ -11,6 +11,7 @@
 #include "keywords.h"
 
 #include "args.h"
+#include "option.h"
 #include "prototypes.h"
 #include "uncrustify.h"
 #include "uncrustify_limits.h"
@@ -287,31 +288,32 @@ void print_custom_keywords(FILE *pfile)
 {
    for (const auto &keyword_pair : dkwm)
    {
-      E_Token tt = keyword_pair.second;
+      E_Token    tt   = keyword_pair.second;
+      const auto word = uncrustify::quote_config_arg(keyword_pair.first);
 
       if (tt == CT_TYPE)
       {
-         fprintf(pfile, "custom type %*.s%s\n",
-                 uncrustify::limits::MAX_OPTION_NAME_LEN - 10, " ",
-                 keyword_pair.first.c_str());
+         fprintf(pfile, "type %*.s%s\n",
+                 uncrustify::limits::MAX_OPTION_NAME_LEN - 5, " ",
+                 word.c_str());
       }
       else if (tt == CT_MACRO_OPEN)
       {
          fprintf(pfile, "macro-open %*.s%s\n",
                  uncrustify::limits::MAX_OPTION_NAME_LEN - 11, " ",
-                 keyword_pair.first.c_str());
+                 word.c_str());
       }
       else if (tt == CT_MACRO_CLOSE)
       {
          fprintf(pfile, "macro-close %*.s%s\n",
                  uncrustify::limits::MAX_OPTION_NAME_LEN - 12, " ",
-                 keyword_pair.first.c_str());
+                 word.c_str());
       }
       else if (tt == CT_MACRO_ELSE)
       {
          fprintf(pfile, "macro-else %*.s%s\n",
                  uncrustify::limits::MAX_OPTION_NAME_LEN - 11, " ",
-                 keyword_pair.first.c_str());
+                 word.c_str());
       }
       else
       {
@@ -320,7 +322,7 @@ void print_custom_keywords(FILE *pfile)
          fprintf(pfile, "set %s %*.s%s\n",
                  tn,
                  uncrustify::limits::MAX_OPTION_NAME_LEN - (4 + static_cast<int>(strlen(tn))),
-                 " ", keyword_pair.first.c_str());
+                 " ", word.c_str());
       }
    }
 } // print_custom_keywords
